@@ -28,7 +28,7 @@ CHECKS["C01"] = {
 
 CHECKS["C06"] = {
     "category": "other",
-    "text": "exhaustive over a grid of architectures (features x hidden x blocks x block type x mask type x context x multiplier x batch-norm/dropout, both MADE copies and the mixture-of-Gaussians MADE): the real constructors and forward passes run on taint elements; with random masks the degrees are symbolic integers and z3 (QF_LIA) decides 'no output unit depends on an input >= its feature' for every draw; structural, i.e. for all weights.",
+    "text": "exhaustive over a grid of architectures (features x hidden x blocks x block type x mask type x context x multiplier x batch-norm/dropout, both MADE copies and the mixture-of-Gaussians MADE): the real constructors and forward passes run on taint elements; with random masks the degrees are symbolic integers and z3 (QF_LIA) decides 'no output unit depends on an input >= its feature' for every draw; structural, i.e. for all weights. Extra jobs judge the second pass after all parameters were replaced following a first evaluation.",
     "design_ref": "DESIGN.md section 6, C06",
     "technique": "taint-domain symbolic execution of the real MADE code + z3 QF_LIA over symbolic mask degrees",
 }
@@ -52,7 +52,7 @@ CHECKS["C18"] = {
 }
 CHECKS["C20"] = {
     "category": "other",
-    "text": "the real helper functions on symbolic tensors: index formulas of tile/repeat_rows/merge/split/sum_except_batch as term identities over all small shapes, searchsorted bracket (QF_NRA) and IEEE bin-index range (QF_FP, float32/float64), cbrt and logabsdet identities (QF_NRA), mask constructors over all symbolic draws, argument immutability from the engine's write log, type predicates by CrossHair.",
+    "text": "the real helper functions on symbolic tensors: index formulas of tile/repeat_rows/merge/split/sum_except_batch as term identities over all small shapes, searchsorted bracket (QF_NRA) and IEEE bin-index range (QF_FP, float32/float64), cbrt and logabsdet identities (QF_NRA), mask constructors over all symbolic draws, argument immutability from the engine's write log, type predicates by CrossHair. get_temperature is decided for every max_value > 0 and bound in (0,1).",
     "design_ref": "DESIGN.md section 6, C20",
     "technique": "symbolic execution + z3 (QF_NRA, QF_FP) + CrossHair on the pure-Python predicates",
 }
@@ -65,7 +65,7 @@ CHECKS["C04"] = {
 }
 CHECKS["C10"] = {
     "category": "model_checking",
-    "text": "inductive model checking of the cache state machine on the real classes: every (abstract state satisfying the invariant) x (operation) is executed with the real code on symbolic parameters; z3 decides that outputs equal the uncached recomputation at the current parameters and that the invariant (non-empty slots equal their accessors, empty in training) is re-established - one step covers histories of every length. Random concrete histories are replayed against the real classes as trace validation.",
+    "text": "inductive model checking of the cache state machine on the real classes: every (abstract state satisfying the invariant) x (operation) is executed with the real code on symbolic parameters; z3 decides that outputs equal the uncached recomputation at the current parameters and that the invariant (non-empty slots equal their accessors, empty in training) is re-established - one step covers histories of every length. Random concrete histories are replayed against the real classes as trace validation. Operations include a state-dict load through an enclosing module.",
     "design_ref": "DESIGN.md section 6, C10",
     "technique": "inductive-step symbolic model checking (symbolic pre-state + one real operation) with z3 polynomial identities",
 }
@@ -90,7 +90,7 @@ CHECKS["C11"] = {
 }
 CHECKS["C14"] = {
     "category": "model_checking",
-    "text": "inductive model checking of the ActNorm / BatchNorm life-cycle: every (training, initialised) abstract state x operation (train, eval, forward, inverse, save+load) x batch shape runs the real code on symbolic state and is compared with a reference transition function written from the docstrings (initialisation iff training and not initialised, zero mean / unit unbiased variance afterwards, momentum rule, running statistics only in training forwards, inverse refused in training); identities decided by z3; random concrete histories validated against the reference.",
+    "text": "inductive model checking of the ActNorm / BatchNorm life-cycle: every (training, initialised) abstract state x operation (train, eval, forward, inverse, save+load) x batch shape runs the real code on symbolic state and is compared with a reference transition function written from the docstrings (initialisation iff training and not initialised, zero mean / unit unbiased variance afterwards, momentum rule, running statistics only in training forwards, inverse refused in training); identities decided by z3; random concrete histories validated against the reference. 48 extra bounded histories restore a kept state_dict() snapshot into a fresh layer.",
     "design_ref": "DESIGN.md section 6, C14",
     "technique": "inductive-step symbolic model checking against a reference transition function, z3 polynomial identities with sqrt reduction",
 }
@@ -103,7 +103,7 @@ CHECKS["C03"] = {
 }
 CHECKS["C05"] = {
     "category": "other",
-    "text": "closed forms of the real log-densities as identities decided by z3: exact summation over {0,1}^D for the Bernoulli (and E[x]==mean()), Gaussian variable part + numerically checked constant for Standard/Diagonal/ConditionalDiagonal normals over event shapes [1],[2],[2,1], sampling structure log_prob(mu+sigma z)==logN(z)-sum log sigma, mean() value and shape, the MADE mixture density against prod_d sum_k pi N with the [N,F,M,3] layout; the KDE evaluator's constant and term evaluated against the mixture reference. uniform.py outside.",
+    "text": "closed forms of the real log-densities as identities decided by z3: exact summation over {0,1}^D for the Bernoulli (and E[x]==mean()), Gaussian variable part + numerically checked constant for Standard/Diagonal/ConditionalDiagonal normals over event shapes [1],[2],[2,1], sampling structure log_prob(mu+sigma z)==logN(z)-sum log sigma, mean() value and shape, the MADE mixture density against prod_d sum_k pi N with the [N,F,M,3] layout; the KDE evaluator's constant and term evaluated against the mixture reference. uniform.py outside. The MADE-mixture sampler runs symbolically too (draw == mean + z*std of the chosen component, the density's own terms).",
     "design_ref": "DESIGN.md section 6, C05",
     "technique": "symbolic execution of the real log_prob / sample / mean + z3 polynomial identities in exp-atoms",
 }
